@@ -1,4 +1,4 @@
-(* h_c05.ml — C05 handlers: Slice model (pinned image of index/slice.hpp) vs Python's slice.indices.
+(* h_c05.ml — C05 handlers: Slice model (image of index/slice.hpp after the slice-arithmetic repair) vs Python's slice.indices.
    Case lines
      ax   S:<enc> I:<n> <start> <stop> <step>          one axis; parts N | I:v ; step may be O (2-part slice)
      mx   S:<enc> S:<combo> L:<shape> <part> ...         index level, several axes
@@ -9,7 +9,8 @@
      mx : ok <shape> ; i,j|i,j|...            (source multi-index of every result index, row-major; only when every
                                                extent is in 0..64 and there are at most 4096 of them)
      vw : ok <shape> ; e,e,...                (same guard)
-   model = faithful; spec = Python; dom = slice_core on every range axis, integers in range, extents < 2^24. *)
+   model = faithful (int64_t arithmetic with explicit wraps); spec = Python; dom = the argument types: int bounds and
+   non-zero int steps, integers in [-n,n), extents < 2^62, well-formed index.  v1 I:n a b [c] = view::slice(a, ONE slice). *)
 open BinNums
 open Datatypes
 open Base
@@ -68,8 +69,7 @@ let rec enum_idx = function
 let total l = List.fold_left (fun a x -> a * int_of_z x) 1 l
 let enumerable shp = List.for_all sane shp && total shp <= 4096
 
-let model_shape variadic shape sls =
-  if variadic && var_oob shape sls then Error "trap out_of_range" else
+let model_shape (_variadic : bool) shape sls =
   let r = shape_slice shape sls in
   if List.exists (fun x -> x = LenUB) r then Error "ub"
   else Ok (List.map (function Len l -> i64 l | _ -> z0) r)
@@ -127,18 +127,17 @@ let () =
           let ex = expand shape sls in
           let inq = axes_ok shape ex in
           { model = fm variadic shape sls; spec = if inq then fs shape sls else "unspecified";
-            dom = inq && multi_dom shape sls && not (variadic && var_oob shape sls) }
+            dom = inq && multi_dom shape sls }
         end
     | _ -> failwith "multi") in
-  (* v1 I:n a b [c]: view::slice(a, ONE all-integer slice) on a 1-d array.  nmtools_tuple{slices...} with a single tuple is the
-     copy-deduction candidate: the slice is taken for a list of integer indices, dim - N_INT wraps, resize throws. *)
+  (* v1 I:n a b [c]: the public variadic view::slice(a, ONE all-integer slice) on a 1-d array holding 0,1,2,... *)
   register "v1" (fun args -> match args with
     | n :: a :: b :: rest ->
         let n = getI n and a = opt_part a and b = opt_part b and c = (match rest with [c] -> opt_part c | _ -> None) in
-        let l = py_len n a b c in
-        { model = "trap length_error";
-          spec = if step_ok c then "ok " ^ string_of_z l ^ " ;" ^ (if l = z0 then "" else " " ^ String.concat "," (List.map (fun k -> string_of_z (py_index k n a b c)) (range_upto l))) else "unspecified";
-          dom = false }
+        let sls = [SRange (a, b, c)] in
+        { model = vw_model true [n] sls;
+          spec = if step_ok c then vw_spec [n] sls else "unspecified";
+          dom = step_ok c && multi_dom [n] sls }
     | _ -> failwith "v1");
   register "mx" (multi mx_model mx_spec);
   register "vw" (multi vw_model vw_spec)
